@@ -62,7 +62,15 @@ def transformations(rng, net, tier):
     v = net.clone()
     for cl in v.clusters:
         if cl.kind == "obs":
-            d = float(rng.choice(NEAR)) if rng.uniform() < 0.5 else float(rng.uniform(0, 400))
+            u = rng.uniform()
+            if u < 0.35:
+                d = float(rng.choice(NEAR))
+            elif u < 0.7:
+                # the circle zero itself points (almost) exactly north / east / south / west: the orientation shift is
+                # then 0, 100, 200 or 300 gon and the noisy estimates from the single targets straddle that value
+                d = (float(rng.choice([0.0, 100.0, 200.0, 300.0])) + float(rng.choice([0.0, 1e-7, -1e-7])) - cl.zero) % 400.0
+            else:
+                d = float(rng.uniform(0, 400))
             cl.zero = (cl.zero + d) % 400.0
             for o in cl.obs:
                 if o.kind == "direction":
